@@ -3,11 +3,13 @@ use crate::rt::{Args, Report};
 
 pub mod c03;
 pub mod c05;
+pub mod c13;
 
 pub fn dispatch(a: &Args) -> Option<Report> {
     match a.prop.as_str() {
         "C03" => c03::run(a),
         "C05" => c05::run(a),
+        "C13" => c13::run(a),
         _ => None,
     }
 }
